@@ -39,6 +39,8 @@ def oracle(ctx, seeds=None):
         res.case((name, d, round(u / c)))
         if not ok:
             res.fail(name + ':raised', out, rp); continue
+        if not isinstance(out, (list, tuple)) or len(out) != 3:
+            res.fail(name + ':shape', "boundary state with %r components instead of (rho, u, p)" % (len(out) if hasattr(out, '__len__') else type(out).__name__,), rp); continue
         r1, u1, p1 = [float(np.ravel(x)[0]) for x in out]
         def bad(what, a, b, sc):
             if not (abs(a - b) <= TOL * sc):
@@ -114,7 +116,12 @@ def oracle(ctx, seeds=None):
             res.case(('2d', name, nrm))
             if not ok:
                 res.fail('2d/' + name + ':raised', out, rp); continue
-            r1, V1, p1 = float(np.ravel(out[0])[0]), np.asarray(out[1], dtype=float)[:, 0], float(np.ravel(out[2])[0])
+            try:
+                if len(out) != 3 or np.asarray(out[1], dtype=float).shape[0] != 2:
+                    raise ValueError("components %r" % ([np.shape(x) for x in out],))
+                r1, V1, p1 = float(np.ravel(out[0])[0]), np.asarray(out[1], dtype=float)[:, 0], float(np.ravel(out[2])[0])
+            except (ValueError, IndexError, TypeError) as e:
+                res.fail('2d/' + name + ':shape', "boundary state is not (rho, (ux,uy), p): %s" % e, rp); continue
             def bad(what, a, b, sc):
                 if not (abs(a - b) <= TOL * sc):
                     res.fail('2d/%s:%s:n=%+d,%+d' % (name, what, nrm[0], nrm[1]), "%s: %r vs %r" % (what, a, b), rp)
